@@ -278,3 +278,6 @@ V("C09", "benign_history_delay_shift_idiom", "silent", (DISC, "                s
 V("C09", "history_sampling_int_time", "violation", (DISC, "        self._last_t = np.array([0.0])\n", "        self._last_t = np.array([0])\n"), rule="C09.history")
 V("C09", "history_sampling_rewind_keeps_time", "violation", (DISC, "            self._last_t[0] = self._prev_t[0]\n", "            self._last_t[0] = dae_t\n"), rule="C09.history")
 V("C09", "history_sampling_nonstrict", "violation", (DISC, "            do_sample = (dae_t - self.offset - self._last_t) > self.interval", "            do_sample = (dae_t - self.offset - self._last_t) > 0"), rule="C09.history")
+V("C17", "pflow_measure_builtin_max", "violation", (PFLOW, "        mis = np.maximum(abs(fmax), abs(gmax))", "        mis = max(abs(fmax), abs(gmax))"), rule="C17.nan")
+V("C17", "daeint_measure_builtin_max", "violation", (DAEINT, "            mis = abs(mis_inc)\n", "            mis = max(0, abs(mis_inc))\n"), rule="C17.nan")
+V("C17", "benign_pflow_measure_npmax", "silent", (PFLOW, "        mis = np.maximum(abs(fmax), abs(gmax))", "        mis = np.max(np.abs(np.array([fmax, gmax])))"))
